@@ -72,6 +72,7 @@ class Evaluator:
         self.max_depth = max_depth
         self._fns: dict = {}
         self.calls = 0
+        self.builtins: dict = {}  # name -> f(evaluator, args, kwargs): functions modelled by the analyser instead of evaluated
 
     # -- function level ------------------------------------------------------------------------------------------
     def fn(self, name: str) -> Optional[Fn]:
@@ -238,6 +239,10 @@ class Evaluator:
                     return tbl[o]()
             if o == "neg":
                 return -xs[0]
+        if any(isinstance(x, Bits) for x in xs) and all(isinstance(x, (Bits, int)) for x in xs):
+            from . import bitalg
+
+            return bitalg.op(o, xs)
         raise NotEvaluable(f"operator {o} in {tstr(t)}")
 
     def _call(self, t, env, ex, depth):
@@ -290,6 +295,12 @@ class Evaluator:
                 return (min if n == "min" else max)(args)
             if n == "Shape":
                 return "Shape"
+            if n == "Mux" and len(args) == 3:
+                from . import bitalg
+
+                return bitalg.mux(*args)
+            if n in self.builtins:
+                return self.builtins[n](self, args, kwargs)
             return self.call(n, args, kwargs, depth + 1)
         if f == ("a", ("n", "Value"), "cast") and len(args) == 1:
             return as_bits(args[0])
@@ -320,10 +331,16 @@ class Evaluator:
                     return Bits(tuple(recv) * args[0])
                 if m in ("as_unsigned", "as_signed", "as_value") and not args:
                     return recv
+                if m in ("any", "bool", "all") and not args:
+                    from . import bitalg
+
+                    return bitalg.reduce_all(recv) if m == "all" else bitalg.reduce_any(recv)
                 if m == "shape" and not args:
                     return ShapeV(len(recv))
-        if f[0] == "v" or f[0] == "p":
+        if f[0] in ("v", "p", "i"):
             recv = self.ev(f, env, ex, depth)
             if isinstance(recv, ShapeV) and len(args) == 1:
                 return as_bits(args[0])  # layout cast: a view of the same bits
+            if callable(recv):
+                return recv(*args)
         raise NotEvaluable(tstr(t))
